@@ -345,6 +345,26 @@ def r3_numeric_key_order(repo=None, rid="C12.R3"):
     ro = dmdroles.roles(repo)
     am = ro.add_view.fn()
     qa = ro.add
+    # positive evidence first: the samples of a file are taken in the order the HDF5 library iterates the groups - by *name*, i.e.
+    # lexicographically ('10000000000' < '9999999995') - when the loop that fills the result runs over the file object itself
+    handles = {it.optional_vars.id for w in ast.walk(am) if isinstance(w, ast.With) for it in w.items
+               if isinstance(it.optional_vars, ast.Name) and isinstance(it.context_expr, ast.Call) and pyfront.call_name(it.context_expr) == "h5py.File"}
+    handles |= {a_.targets[0].id for a_ in ast.walk(am) if isinstance(a_, ast.Assign) and len(a_.targets) == 1 and isinstance(a_.targets[0], ast.Name)
+                and isinstance(a_.value, ast.Call) and pyfront.call_name(a_.value) == "h5py.File"}
+    for lp in ast.walk(am):
+        if not isinstance(lp, ast.For):
+            continue
+        it_ = lp.iter
+        base = it_.func.value if isinstance(it_, ast.Call) and isinstance(it_.func, ast.Attribute) and it_.func.attr in ("items", "keys", "values") \
+            and not it_.args else it_
+        if isinstance(base, ast.Name) and base.id in handles and any(
+                isinstance(c, ast.Call) and pyfront.call_name(c) == "self." + ro.populate_name for c in ast.walk(lp)):
+            r.violation(m.rel, qa, "for %s in %s" % (norm(ast.unparse(lp.target)), norm(ast.unparse(it_))), "the samples of a file enter the "
+                        "result in the order of their group *names*: with indices of different digit counts in one file the last entry "
+                        "is not the highest index, and everything that takes the last entry for the latest sample (forward fill, "
+                        "read_latest) answers with an older one although the newer one is written", line=lp.lineno)
+            r.guard(1)
+            return r
     loops = [n for n in ast.walk(am) if isinstance(n, ast.For) and isinstance(n.iter, ast.Name) and any(
         isinstance(c, ast.Call) and pyfront.call_name(c) == "self." + ro.populate_name for c in ast.walk(n))]
     loops = [l for l in loops if not any(l is not o and any(x is l for x in ast.walk(o)) for o in loops)]
@@ -692,11 +712,91 @@ def r7_indices_stay_exact(repo=None):
     return r
 
 
+def r8_per_sample_split_reaches_nested_values(repo=None):
+    """'values may be ... nested dictionaries of these ... batch writes' round trip: in the dict-of-arrays form a value whose length
+    equals the number of samples gives one element per sample.  That rule is applied in one loop of DigitalMetadataWriter.write
+    (the one that tests `len(<value>) == <N>`); it reaches values *inside* nested dictionaries only if that loop runs over the
+    flattened (key path, leaf) pairs - the module's recursive item generator applied to `data` - and not over the top-level items.
+    Flattening later, per sample, stores the whole array under every sample."""
+    r = Rule("C12.R8", "the per-sample split of a batch write is applied to the leaves of nested dictionaries")
+    m = pyfront.mod("digital_metadata", repo)
+    q = "DigitalMetadataWriter.write"
+    f = m.fn(q)
+    # the recursive item generator: a module-level generator that calls itself
+    rec = [name for name, fn in m.functions.items() if "." not in name and any(isinstance(x, (ast.Yield, ast.YieldFrom)) for x in ast.walk(fn))
+           and any(isinstance(c, ast.Call) and isinstance(c.func, ast.Name) and c.func.id == name for c in ast.walk(fn))]
+    if len(rec) != 1:
+        raise AnalysisError("digital_metadata: the recursive (key, value) generator for nested dictionaries was not found exactly once (%s)" % rec)
+    rec = rec[0]
+    # the test `len(<value>) == <N>`: in write itself or in a private helper of the writer; <value> is followed back to the
+    # iteration that produces it (a loop / comprehension target, possibly through a helper's parameter)
+    W = "DigitalMetadataWriter"
+    cands = []
+    scope_fns = dict(m.methods(W))
+    scope_fns.update({n_: f_ for n_, f_ in m.functions.items() if "." not in n_ and n_.startswith("_")})     # private module helpers as well
+    for name, fn in scope_fns.items():
+        for c in ast.walk(fn):
+            if isinstance(c, ast.Compare) and len(c.ops) == 1 and isinstance(c.ops[0], ast.Eq) and isinstance(c.left, ast.Call) \
+                    and pyfront.call_name(c.left) == "len" and c.left.args and isinstance(c.left.args[0], ast.Name) \
+                    and isinstance(c.comparators[0], ast.Name):
+                cands.append((name, fn, c.left.args[0].id, c))
+    # keep the tests on a value of the data (not `len(data) != N` on the whole argument, which is an inequality anyway)
+    cands = [c_ for c_ in cands if not (c_[0] == "write" and c_[2] in [a.arg for a in c_[1].args.args])]      # not `len(data) == N` on the argument itself
+    if len(cands) != 1:
+        raise AnalysisError("%s: the test `len(value) == N` was not found exactly once (%d)" % (W, len(cands)))
+    name, fn, var, cmp_ = cands[0]
+
+    def producers(fn_, v, at, depth=0):
+        """the iteration that binds v around node `at` in fn_ (innermost enclosing loop / comprehension whose target holds v); if v is
+        a parameter of the private helper fn_, the same question is asked at every call site"""
+        par_ = {}
+        for n in ast.walk(fn_):
+            for ch in ast.iter_child_nodes(n):
+                par_[ch] = n
+        p_ = par_.get(at)
+        while p_ is not None:
+            if isinstance(p_, ast.For) and any(isinstance(x, ast.Name) and x.id == v for x in ast.walk(p_.target)):
+                return [(fn_, p_.iter, p_)]
+            if isinstance(p_, (ast.ListComp, ast.GeneratorExp, ast.SetComp, ast.DictComp)):
+                for gen in p_.generators:
+                    if any(isinstance(x, ast.Name) and x.id == v for x in ast.walk(gen.target)):
+                        return [(fn_, gen.iter, p_)]
+            p_ = par_.get(p_)
+        out = []
+        ps = [a.arg for a in fn_.args.args if a.arg not in ("self", "cls")]
+        if depth < 3 and v in ps:
+            idx = ps.index(v)
+            for cname, cf in scope_fns.items():
+                for c in ast.walk(cf):
+                    if isinstance(c, ast.Call) and (pyfront.call_name(c) or "") in ("self." + fn_.name, "cls." + fn_.name, W + "." + fn_.name, fn_.name) \
+                            and idx < len(c.args) and isinstance(c.args[idx], ast.Name):
+                        out += producers(cf, c.args[idx].id, c, depth + 1)
+        return out
+    prods = producers(fn, var, cmp_)
+    if not prods:
+        raise AnalysisError("%s.%s: where the value `%s` of the per-sample split comes from was not recognised" % (W, name, var))
+    params_w = [a.arg for a in f.args.args]
+    for pf, it, node in prods:
+        site = "%s:%s %s.%s `%s in %s`" % (m.rel, getattr(node, "lineno", getattr(it, "lineno", 0)), W, pf.name, var, norm(ast.unparse(it))[:50])
+        pparams = [a.arg for a in pf.args.args]
+        if isinstance(it, ast.Call) and pyfront.call_name(it) == rec and it.args and isinstance(it.args[0], ast.Name) and it.args[0].id in pparams:
+            r.ok(site, "runs over the flattened leaves of `%s`" % it.args[0].id)
+        elif isinstance(it, ast.Call) and (pyfront.call_name(it) in ("six.iteritems", "iteritems") or (
+                isinstance(it.func, ast.Attribute) and it.func.attr in ("items", "iteritems"))):
+            r.violation(m.rel, "%s.%s" % (W, pf.name), "%s in %s" % (var, norm(ast.unparse(it))[:50]), "the per-sample split looks at the "
+                        "top-level values only: a value of length N inside a nested dictionary is not split, every sample stores the whole "
+                        "array under that key and read() returns it for each sample", line=getattr(it, "lineno", pf.lineno))
+        else:
+            raise AnalysisError("%s.%s: iterable `%s` of the per-sample split not recognised" % (W, pf.name, norm(ast.unparse(it))[:60]))
+    r.guard(1)
+    return r
+
+
 def rules(repo=None):
     from . import c13
     return [lambda: r1_append_and_refuse(repo), lambda: r2_range_filter(repo), lambda: r3_numeric_key_order(repo),
             lambda: c13.r1_exact_placement(repo, rid="C12.R4"), lambda: r5_recursive_shape(repo), lambda: r6_list_edges(repo),
-            lambda: r7_indices_stay_exact(repo)]
+            lambda: r7_indices_stay_exact(repo), lambda: r8_per_sample_split_reaches_nested_values(repo)]
 
 
 EXPLANATION = (
@@ -714,7 +814,10 @@ EXPLANATION = (
     '.decode() of a stored value sits in a try whose UnicodeDecodeError handler keeps the bytes. R7: in read no Add / Sub'
     " / augmented assignment is applied to a range parameter outside int(); the 'index' column of read_flatdict passes a "
     'conversion to np.uint64 on its definition chain. Does NOT decide value equality of arbitrary numpy/h5py conversions '
-    'or the dict-of-arrays distribution rule.')
+    'or the dict-of-arrays distribution rule. R3 also: a loop that fills the result while iterating the h5py file object '
+    'itself (HDF5 name order) is a violation. R8: the value tested by `len(value) == N` in the batch write is produced by'
+    " an iteration over the module's recursive item generator applied to `data` (followed through helper parameters to "
+    'the enclosing loop or comprehension); an iteration over .items() is the violation.')
 TECHNIQUE = ("Python ast; table/idiom checks with def-use roles; linear forms for the candidate filter; shares C13's symbolic placement forms")
 ASSUMPTIONS = ["h5py: create_group raises ValueError on an existing name; mode 'a' never truncates; str is stored as UTF-8"]
 FILES = ["python/digital_rf/digital_metadata.py"]
